@@ -163,6 +163,15 @@ def check(ctx):
                     ctx.ob("ARGPOS.simplify-up.guarded", c, f"{qn}: positional rebuild of the parent happens under isinstance(parent, ...)", guarded, "" if guarded else "for an arbitrary parent self need not be its first operand: the parent's real first operand is overwritten", nontrivial=not guarded)
     ctx.count("positional_parent_rebuilds", n_rb)
     ctx.floor("positional_parent_rebuilds", 12)
+    # ---------------- squashing two filters needs a ROW-WISE outer predicate: reductions and neighbour-dependent operations block it
+    cdp = (ex_ if "ex_" in dir() else ctx.model.module("dask/dataframe/dask_expr/_expr.py")).func("_check_dependents_are_predicates")
+    nb = [n for n in ast.walk(cdp) if isinstance(n, ast.If) and eqv(n.test, "_depends_on_other_rows(e)")]
+    ok = len(nb) == 1 and any(isinstance(s_, ast.Return) and eqv(s_.value, "False") for s_ in nb[0].body) and any(eqv(e_, "allow_reduction") and pol is False for e_, pol in cfg_of(cdp).facts(nb[0]))
+    ctx.ob("DOM.filter-squash.row-wise", cdp, "with allow_reduction=False the walk over the predicate returns False at any expression that depends on other rows", ok, "" if ok else "x = df[p0]; x[x.b.cumsum() > k] is merged into df[p0 & (df.b.cumsum() > k)]: the cumulative/neighbour operation is evaluated on the unfiltered frame")
+    dor = (ex_ if "ex_" in dir() else ctx.model.module("dask/dataframe/dask_expr/_expr.py")).func("_depends_on_other_rows")
+    listed = {n.id for r in returns(dor) for n in ast.walk(r.value) if isinstance(n, ast.Name)}
+    need = {"MapOverlap", "MapOverlapAlign", "CreateOverlappingPartitions", "CumulativeAggregations", "CumulativeBlockwise", "CumulativeFinalize", "RollingReduction", "RollingAggregation"}
+    ctx.ob("TAB.neighbour-dependent.classes", dor, f"_depends_on_other_rows covers the abstract and the lowered forms {sorted(need)}", need <= listed, "" if need <= listed else f"missing: {sorted(need - listed)} -- after lowering the merge happens anyway")
 
 
 VARIANTS = [
